@@ -168,6 +168,11 @@ def run():
         "vsg.vhdlFile.vhdlFile.split_on_carriage_return",
         "vsg.vhdlFile.vhdlFile.vhdlFile.get_lines",
         "vsg.vhdlFile.classify.whitespace.classify",
+        # (c) a clean file is never rewritten: the driver writes exactly when some _fix_violation ran, never without --fix
+        "vsg.apply_rules.apply_rules",
+        "vsg.rule_list.rule_list.fix",
+        "vsg.rule.Rule.fix",
+        "vsg.rule_list.rule_list.clear_violations",
     ]
     cfg = {q: {"gen": gen, "also": ["vsg.tokens.create"], "n_search": 3000} for q in quals if q.startswith("vsg.tokens.")}
     c.deductive(quals, cfg)
